@@ -681,6 +681,145 @@ def rule_instance_state(model):
     return r
 
 
+class _NS(BaseState):
+    def __init__(self, env=None):
+        self.env = dict(env or {})
+
+    def key(self):
+        return tuple(sorted(self.env.items()))
+
+    def copy(self):
+        n = _NS(self.env)
+        n.trace = self.trace
+        return n
+
+
+class _NamespaceDomain(Domain):
+    """TemplateDict.__call__ for keyword arguments only: what kind of
+    object ends up behind the DictInstance it returns -- KW (the plain
+    keyword dict) or TD (a namespace, whose item access calls values)."""
+
+    def __init__(self, fi):
+        self.fi = fi
+        a = fi.node.args
+        self.va = a.vararg.arg if a.vararg else None
+        self.kw = a.kwarg.arg if a.kwarg else None
+        self.wrapped = []
+
+    def val(self, e, st):
+        if isinstance(e, ast.Name):
+            if e.id == self.kw:
+                return 'KW'
+            return st.env.get(e.id, '?')
+        if isinstance(e, ast.Call):
+            t = norm(e.func)
+            if t in ('type(self)', 'self.__class__', 'TemplateDict'):
+                return 'TD'
+            if t == 'len' and e.args and norm(e.args[0]) == self.va:
+                return 'ZERO'
+            if t in ('dict',) and e.args and \
+                    self.val(e.args[0], st) == 'KW':
+                return 'KW'
+        return '?'
+
+    def truth(self, e, st):
+        if isinstance(e, ast.UnaryOp) and isinstance(e.op, ast.Not):
+            v = self.truth(e.operand, st)
+            return None if v is None else not v
+        if isinstance(e, ast.BoolOp):
+            vals = [self.truth(v, st) for v in e.values]
+            if isinstance(e.op, ast.And):
+                if any(v is False for v in vals):
+                    return False
+                return True if all(v is True for v in vals) else None
+            if any(v is True for v in vals):
+                return True
+            return False if all(v is False for v in vals) else None
+        if isinstance(e, ast.Name):
+            if e.id == self.va:
+                return False
+            if e.id == self.kw:
+                return True
+            v = st.env.get(e.id)
+            if v == 'ZERO':
+                return False
+            if v in ('KW', 'TD'):
+                return True
+        if isinstance(e, ast.Call) and self.val(e, st) == 'ZERO':
+            return False
+        return None
+
+    def branch(self, test, st):
+        v = self.truth(test, st)
+        if v is None:
+            return [(True, st), (False, st)]
+        return [(v, st)]
+
+    def raises(self, node, st):
+        return []
+
+    def for_may_skip(self, node, st):
+        return True
+
+    def for_target(self, node, st):
+        # no positional arguments in this scenario: the body never runs
+        if norm(node.iter) == self.va:
+            return None
+        return st
+
+    def effects(self, stmt, st):
+        self.note(stmt, st)
+        if isinstance(stmt, ast.Assign) and len(stmt.targets) == 1 and \
+                isinstance(stmt.targets[0], ast.Name):
+            st = st.copy()
+            st.env[stmt.targets[0].id] = self.val(stmt.value, st)
+        return st
+
+    def note(self, node, st):
+        for c in ast.walk(node):
+            if isinstance(c, ast.Call) and norm(c.func) == 'DictInstance' \
+                    and c.args:
+                self.wrapped.append((c, self.val(c.args[0], st)))
+
+    def on_return(self, node, st):
+        if node.value is not None:
+            self.note(node.value, st)
+        return [], st
+
+
+def rule_keyword_namespace(model):
+    r = RuleResult('C02.R7', 'values bound with keyword arguments only '
+                   '(_.namespace(f=callable)) are held in a plain mapping: '
+                   'reading them does not call them (expressions receive '
+                   'callables uncalled); only a namespace built from '
+                   'positional sources resolves names the calling way')
+    fi = model.func('_DocumentTemplate', 'TemplateDict.__call__')
+    dom = _NamespaceDomain(fi)
+    if dom.kw is None or dom.va is None:
+        raise AnalysisError('TemplateDict.__call__: expected *args, **kw')
+
+    class _I(Interp):
+        def loop(self, node, st):
+            if isinstance(node, ast.For) and norm(node.iter) == dom.va:
+                return self.block(node.orelse, st)
+            return super().loop(node, st)
+    _I(dom).run(fi.node, _NS())
+    seen = set()
+    for c, v in dom.wrapped:
+        if (id(c), v) in seen:
+            continue
+        seen.add((id(c), v))
+        r.instance(fi.where, c, f'keyword-only call wraps {v}')
+        if v != 'KW':
+            r.finding(fi.where, c, 'with keyword arguments only the '
+                      'values are wrapped in a namespace object instead of '
+                      'the plain keyword mapping: attribute access on the '
+                      'result calls callables / renders templates before '
+                      'the expression sees them', node=c, ctx=fi)
+    r.require_floor(1)
+    return r
+
+
 def rule_scoping(model):
     from . import c08
     r = RuleResult('C02.R5', 'bindings of in/with/let/if/try blocks are '
@@ -706,7 +845,7 @@ def _inl(rule):
 
 INLINED_VIEW = True
 RULES_PLAIN = [rule_push_order, rule_ctor, rule_call_flag, rule_direction,
-               rule_scoping, rule_instance_state]
+               rule_scoping, rule_instance_state, rule_keyword_namespace]
 RULES = [_inl(r_) for r_ in RULES_PLAIN] if INLINED_VIEW else RULES_PLAIN
 EXPLANATION = (
     'Forward dataflow of the precedence class of every namespace push along '
